@@ -47,6 +47,12 @@ func genC05(t *rapid.T) Scenario {
 	}
 	// whatever was hidden becomes visible again for the quiet period
 	sc.Ops = append(sc.Ops, HubOp{K: "appear", X: 0, Y: 1}, HubOp{K: "appear", X: 1, Y: 0})
+	// sometimes the application's logger is slow for certain lines, or a link is slow (schedules)
+	sc.SlowLog = genSlowLog(t, sc.N)
+	if ms := rapid.SampledFrom([]int{0, 0, 0, 200, 700}).Draw(t, "slowLink"); ms > 0 {
+		x := rapid.IntRange(0, 1).Draw(t, "slowFrom")
+		sc.Ops = append([]HubOp{{K: "slow", X: x, Y: 1 - x, Ms: ms}}, sc.Ops...)
+	}
 	return sc
 }
 
@@ -249,6 +255,7 @@ func genC11Hub(t *rapid.T) Scenario {
 			Conc: rapid.IntRange(0, 4).Draw(t, "conc") == 0})
 	}
 	sc.Ops = append(sc.Ops, HubOp{K: "wait", WaitMs: 1000})
+	sc.SlowLog = genSlowLog(t, sc.N)
 	return sc
 }
 
